@@ -335,6 +335,39 @@ def task_array_points():
 task_array_points.contract_fn = "curves.BaseCurve.apply"
 
 
+# --------------------------------------------------------------------------------------
+# engine B: a weight list whose weight function has a zero WITHOUT a sign change (weights (1, -1, 1) on a quadratic Bezier: W = (1 - 2u)^2): the sign-change sampling of
+# find_roots does not see it, the setter accepts the list and the curve cannot be evaluated at u = 1/2.  Known finding D49.
+# --------------------------------------------------------------------------------------
+def task_weight_double_root():
+    fn = "curves.BaseCurve.weights"
+    out = []
+    for label, conv in (("Fraction", F), ("float", float)):
+        bad = None
+        try:
+            c = Curve([conv(0)] * 3 + [conv(1)] * 3, [conv(1), conv(2), conv(3)])
+            try:
+                c.weights = [conv(1), conv(-1), conv(1)]
+                accepted = True
+            except ValueError:
+                accepted = False
+            if accepted:
+                try:
+                    v = c(conv(F(1, 2)))
+                    if v != v:
+                        bad = "accepted; the curve evaluates to nan at u = 1/2"
+                except Exception as e:
+                    bad = "accepted; evaluation at u = 1/2 raises %s" % type(e).__name__
+        except Exception as e:
+            bad = "%s: %s" % (type(e).__name__, str(e)[:100])
+        out.append(ob("%s:zero-without-sign-change[%s]" % (fn, label), fn, FAILED if bad else PROVED, "B", "concrete", 0.0,
+                      bad or "refused with ValueError (or the curve evaluates everywhere)", dict(kind="c15.doubleroot", label=label) if bad else None))
+    return out + [{"_stats": dict(cases=len(out))}]
+
+
+task_weight_double_root.contract_fn = "curves.BaseCurve.weights"
+
+
 def task_copies():
     fn = "curves.BaseCurve.__copy__"
     out = []
@@ -438,7 +471,7 @@ task_find_roots_length.contract_fn = "heavy.find_roots"
 def tasks(tier, seed):
     from ..pyvc.driver import verify
     from ..contracts import curvesv
-    ts = [(task_frames, ()), (task_copies, ()), (task_find_roots_length, ()), (task_float_operands, ()), (task_array_points, ())]
+    ts = [(task_frames, ()), (task_copies, ()), (task_find_roots_length, ()), (task_float_operands, ()), (task_array_points, ()), (task_weight_double_root, ())]
     ts += curvesv.tasks_for({q for _c, _m, q, _v in curvesv.ALL if q not in ("Curve.eval", "norm")})
     from ..contracts import facade2
     # "KnotVector arithmetic returns deep copies": every non-in-place operator, copy and deepcopy return a new object and leave the operand alone (all vectors)
@@ -464,6 +497,9 @@ def tasks(tier, seed):
 
 def replay(o):
     w = o["witness"]
+    if w["kind"] == "c15.doubleroot":
+        r = [x for x in task_weight_double_root() if "id" in x and x["id"].endswith("[%s]" % w["label"])][0]
+        return r["status"] == FAILED, "refused, or the curve evaluates on its whole interval", r["detail"]
     if w["kind"] == "c15.arrays":
         r = [x for x in task_array_points() if "id" in x and x["id"].endswith("[%s,%s]" % (w["points"], w["op"]))][0]
         return r["status"] == FAILED, "caller's array, sibling curve and values unchanged", r["detail"]
